@@ -170,7 +170,7 @@ def session_runs(tier, seed, want, tmp, cfgs):
 
 
 # (NixModel configuration, history lengths, stride, name pools)
-SESSION_CFGS_QUICK = [("MC_Sess_quick.cfg", range(0, 4), 4, [0, 2, 4]), ("MC_Sess_links_quick.cfg", range(14, 16), 1, [0, 1])]
+SESSION_CFGS_QUICK = [("MC_Sess_quick.cfg", range(0, 4), 6, [0, 2, 4]), ("MC_Sess_links_quick.cfg", range(14, 16), 1, [0, 1])]
 SESSION_CFGS_THOROUGH = [("MC_C02_quick.cfg", range(0, 5), 6, [0, 2, 4]), ("MC_C02_links.cfg", range(14, 17), 2, [0, 1])]
 
 
